@@ -69,6 +69,9 @@ def gen_params(rng, stratum):
         # "with a reference"; CIGAR-based detection of partially covered variants next to clips is C06's (narrower) business
         p["decorate"] = rng.choice([0.0, 0.5]) if use_ref else 0.0
         p["ins_end"] = rng.choice([0.0, 0.5, 1.0]) if use_ref else 0.0  # reads ending with the anchor of an insertion or inside the inserted bases
+        # reads that end inside the homopolymer / tandem repeat behind a (shiftable) indel they carry are reported by a mapper
+        # without the gap: their bases equal the reference laid down gap-free
+        p["aligner_like_ends"] = rng.choice([0.0, 1.0]) if use_ref else 0.0
     opts = {
         "reference": "FASTA" if use_ref else False,
         "tag": rng.choice(["PS", "HP"]),
